@@ -278,13 +278,15 @@ struct C15 : vr::Driver {
         n.min = p == 2 ? cur : 0;
         n.low = p == 1 ? cur / 2 : p == 3 ? cur * 2 + 4096 : 0;
       };
-      for (long long cs : {curs[1], curs[2]})
+      for (long long scale : {1LL, 32LL, 1LL << 21})  // MB-, multi-GB- and PB-sized groups (products of two of them exceed 2^63)
+      for (long long cs : {curs[1] * scale, curs[2] * scale})
         for (int ps : prots)
-          for (long long ca : curs)
+          for (long long ca0 : curs)
             for (int pa : prots)
-              for (long long cb : curs)
+              for (long long cb0 : curs)
                 for (int pb : prots) {
-                  if (!th && ((ps + pa * 3 + pb * 5 + (int)(ca >> 28) + (int)(cb >> 27)) % 3)) continue;
+                  long long ca = ca0 * scale, cb = cb0 * scale;
+                  if (!th && ((ps + pa * 3 + pb * 5 + (int)(ca0 >> 28) + (int)(cb0 >> 27)) % 3)) continue;
                   scs.push_back(two("protection s=(" + std::to_string(cs >> 20) + "M,p" + std::to_string(ps) + ") a=(" + std::to_string(ca >> 20) + "M,p" + std::to_string(pa) + ") b=(" + std::to_string(cb >> 20) + "M,p" + std::to_string(pb) + ")",
                                     [=](Tick& t, int k) {
                                       setp(node(t, "s"), cs, ps);
